@@ -187,8 +187,10 @@ def _post_handle_done(engine, st, ctx, out):
         cl.append(("cancelled / failed input decides the output", "PC", z3.Or(succ, st.cancelled(oid)), ["C15", "C03"]))
         cl.append(("successful input is stored at its own position", "PC",
                    z3.Implies(succ, z3.And(z3.Select(st.get("$at", lid), idx) == ctx["f_res"], z3.Select(st.get("$zfilled", sid), idx))), ["C15"]))
-        cl.append(("undecided only while inputs remain", "PC",
-                   z3.Or(Val.b(st.get("done", sid)), Val.i(st.get("count_remaining", sid)) >= 1), ["C15", "C03"]))
+        # nothing was written to the output in this call: then this call must not have DECIDED either (a decision without a write
+        # would leave the output pending for ever), and inputs must still be outstanding
+        cl.append(("no write to the output => this call did not decide, and inputs remain (or the user cancelled the output meanwhile)", "PC",
+                   z3.Or(st.cancelled(oid), z3.And(z3.Not(Val.b(st.get("done", sid))), Val.i(st.get("count_remaining", sid)) >= 1)), ["C15", "C03"]))
         return cl
     ev = resolves[0]
     cl.append(("the future written is the zipper's output", "PC", ev.recv == oid, ["C15", "C01"]))
